@@ -12,10 +12,10 @@ p = os.path.join(os.path.dirname(os.path.abspath(__file__)), "DESIGN.md")
 s = open(p).read()
 for pid, (tech, text, note, ref) in sorted(mkmanifest.CLAIMED.items()):
     block = "<!-- asbuilt:%s -->\n**As built (supersedes the design text below where they differ).** *Technique:* %s. *Level:* %s *Trusted / not covered:* %s\n<!-- /asbuilt:%s -->\n\n" % (pid, tech, text, note, pid)
-    s = re.sub(r"<!-- asbuilt:%s -->.*?<!-- /asbuilt:%s -->\n\n" % (pid, pid), "", s, flags=re.S)
-    m = re.search(r"^### %s .*\n\n" % pid, s, re.M)
+    s = re.sub(r"\n<!-- asbuilt:%s -->.*?<!-- /asbuilt:%s -->\n\n" % (pid, pid), "\n", s, flags=re.S)
+    m = re.search(r"^### %s .*\n" % pid, s, re.M)
     if m:
-        s = s[:m.end()] + block + s[m.end():]
+        s = s[:m.end()] + "\n" + block.rstrip("\n") + "\n\n" + s[m.end():].lstrip("\n")
     else:
         print("heading not found for", pid)
 open(p, "w").write(s)
